@@ -8,6 +8,11 @@ from pydbml.renderer.sql.default.renderer import DefaultSQLRenderer
 from pydbml.renderer.sql.default.utils import comment_to_sql, get_full_name_for_sql
 
 
+def escape_braces(text: str) -> str:
+    """Protect user text from the str.format call that fills in the {c} placeholder."""
+    return text.replace('{', '{{').replace('}', '}}')
+
+
 def col_names(cols: List[Column]) -> str:
     return ', '.join(f'"{c.name}"' for c in cols)
 
@@ -19,35 +24,37 @@ def validate_for_sql(model: Reference):
 
 
 def generate_inline_sql(model: Reference, source_col: List[Column], ref_col: List[Column]) -> str:
-    result = comment_to_sql(model.comment) if model.comment else ''
+    result = escape_braces(comment_to_sql(model.comment)) if model.comment else ''
     result += (
-        f'{{c}}FOREIGN KEY ({col_names(source_col)}) '  # type: ignore
-        f'REFERENCES {get_full_name_for_sql(ref_col[0].table)} ({col_names(ref_col)})'  # type: ignore
+        f'{{c}}FOREIGN KEY ({escape_braces(col_names(source_col))}) '  # type: ignore
+        f'REFERENCES {escape_braces(get_full_name_for_sql(ref_col[0].table))} '  # type: ignore
+        f'({escape_braces(col_names(ref_col))})'
     )
     if model.on_update:
-        result += f' ON UPDATE {model.on_update.upper()}'
+        result += f' ON UPDATE {escape_braces(model.on_update.upper())}'
     if model.on_delete:
-        result += f' ON DELETE {model.on_delete.upper()}'
+        result += f' ON DELETE {escape_braces(model.on_delete.upper())}'
     return result
 
 
 def generate_not_inline_sql(model: Reference, source_col: List['Column'], ref_col: List['Column']):
-    result = comment_to_sql(model.comment) if model.comment else ''
+    result = escape_braces(comment_to_sql(model.comment)) if model.comment else ''
     result += (
-        f'ALTER TABLE {get_full_name_for_sql(source_col[0].table)}'  # type: ignore
-        f' ADD {{c}}FOREIGN KEY ({col_names(source_col)})'
-        f' REFERENCES {get_full_name_for_sql(ref_col[0].table)} ({col_names(ref_col)})' # type: ignore
+        f'ALTER TABLE {escape_braces(get_full_name_for_sql(source_col[0].table))}'  # type: ignore
+        f' ADD {{c}}FOREIGN KEY ({escape_braces(col_names(source_col))})'
+        f' REFERENCES {escape_braces(get_full_name_for_sql(ref_col[0].table))}'  # type: ignore
+        f' ({escape_braces(col_names(ref_col))})'
     )
     if model.on_update:
-        result += f' ON UPDATE {model.on_update.upper()}'
+        result += f' ON UPDATE {escape_braces(model.on_update.upper())}'
     if model.on_delete:
-        result += f' ON DELETE {model.on_delete.upper()}'
+        result += f' ON DELETE {escape_braces(model.on_delete.upper())}'
     return result + ';'
 
 
 def generate_many_to_many_sql(model: Reference) -> str:
     join_table = model.join_table
-    table_sql = join_table.sql  # type: ignore
+    table_sql = escape_braces(join_table.sql)  # type: ignore
 
     n = len(model.col1)
     ref1_sql = generate_not_inline_sql(model, join_table.columns[:n], model.col1)  # type: ignore
